@@ -1,10 +1,10 @@
 """C07 - the formula parser computes the true composition of every well-formed formula.
 Exhaustive singles/pairs, Hypothesis grammar formulas with algebraic rewrites, single-character mutations classified by a strict reference
 recogniser (three-way verdict), add_compound_data, numeric-locale preservation."""
-import ctypes, math, random, re
+import ctypes, math, os, random, re
 from fractions import Fraction
 from hypothesis import strategies as hs
-import common, xrl, hyp, formulas
+import common, vbuild, xrl, hyp, formulas
 from common import Stats, mix
 
 TOL = 1e-12
@@ -417,6 +417,16 @@ def work(item):
     return st
 
 
+def build_diff_fuzzer(ctx, bf):
+    exe = os.path.join(ctx.sdir, "fuzz_formula_diff")
+    cmd = ["clang++", "-std=gnu++17", "-g", "-O1", "-fsanitize=fuzzer,address,undefined", "-fno-sanitize-recover=undefined"] + ["-I" + i for i in bf["incs"]] + \
+          [os.path.join(common.VERIF, "fuzz", "fuzz_formula_diff.cpp"), bf["lib"], "-lm", "-o", exe]
+    rc, out = vbuild.run(cmd)
+    if rc != 0:
+        raise vbuild.BuildError("fuzz target formula_diff failed to build\n%s" % out[-3000:])
+    return exe
+
+
 def run(ctx):
     n = 1200 if ctx.quick else 40000
     ctx.rule = ("(a) exhaustive: 107 single symbols and all 107^2 ordered pairs; (b) Hypothesis grammar formulas (depth <= 5, length <= 120, integer / "
@@ -431,12 +441,33 @@ def run(ctx):
     reps = 4 if ctx.quick else 12
     for k in range(reps):
         parts += [("grammar", k), ("mutants", k), ("add", k)]
-    ctx.stats.merge(common.pmap(work, [(b["lib"], b["src"], p, n, ctx.seed) for p in parts]))
+    if os.environ.get("VERIF_ONLY") != "fuzz":      # (debugging aid: VERIF_ONLY=fuzz runs part (e) alone)
+        ctx.stats.merge(common.pmap(work, [(b["lib"], b["src"], p, n, ctx.seed) for p in parts]))
+    # (e) coverage-guided differential fuzzing against a C++ port of the strict recogniser (fuzz/fuzz_formula_diff.cpp)
+    import c04, concurrent.futures as cf
+    bf = ctx.build("fuzz", "A")
+    exe = build_diff_fuzzer(ctx, bf)
+    runs = 150000 if ctx.quick else 6000000
+    items = [(exe, ctx.sdir, "formula_diff", mix(ctx.seed, "c07fz", k) % (2**31 - 1) + 1, runs, k % 2 == 0, "fd%d" % k, "C07") for k in range(4 if ctx.quick else 8)]
+    with cf.ThreadPoolExecutor(8) as ex:
+        for st in ex.map(c04.run_fuzz, items):
+            ctx.stats.merge(st)
+    ctx.rule += ("; (e) libFuzzer target fuzz_formula_diff (%d processes x %d runs, with and without the seed corpus): CompoundParser against a C++ port of the "
+                 "strict recogniser, same three verdicts, composition to 1e-9" % (len(items), runs))
     ctx.assumptions = ["only the C.utf8 locale exists in the image: the check sees a lost restore, not a decimal-comma mis-parse",
                        "strings outside both the strict grammar and the listed rejection classes are UNSPECIFIED (only consistency is required)"]
 
 
 def replay(ctx, rec):
+    if rec["signature"].startswith("fuzz:"):
+        import subprocess
+        exe = build_diff_fuzzer(ctx, ctx.build("fuzz", "A"))
+        inp = os.path.join(ctx.sdir, "input")
+        with open(inp, "wb") as f:
+            f.write(bytes.fromhex(rec["case"]["input_hex"]))
+        p = subprocess.run([exe, inp], stdout=subprocess.PIPE, stderr=subprocess.PIPE)
+        print("replay fuzz input rc=%d" % p.returncode, p.stderr.decode("utf-8", "replace")[-300:])
+        return p.returncode == 0
     b = ctx.build("plain", "A")
     env = Env(b["lib"], b["src"])
     env.h_invalid = 1
